@@ -36,6 +36,7 @@ func buildProperties() []Property {
 				{"R-STREAM-OWNER", 8, ruleStreamOwner},
 				{"R-POSITION-PAIRING", 6, rulePositionPairing},
 				{"R-PEEK-UNREAD", 5, rulePeekUnread},
+				{"R-LOOKAHEAD", 20, ruleLookahead},
 			},
 		},
 		{
@@ -134,6 +135,7 @@ func buildProperties() []Property {
 				{"R-PARAM-THREAD", 6, ruleParamThread(threadRowsFor("exec"))},
 				{"R-ENUM-TOTAL", 15, ruleEnumTotal},
 				{"R-CUT-PARENT", 1, ruleCutParent},
+				{"R-GLOBAL-ESCAPE", 10, ruleGlobalEscape},
 			},
 		},
 		{
